@@ -228,6 +228,12 @@ def run(prog: Program, res: Result) -> None:  # noqa: PLR0912, PLR0915
                 continue
         res.fail("C20.R4", file=call.file, line=call.node.lineno, qualname=call.qualname, construct=f"json returns {[norm(r, 60) for r in rets]}", message="the json filter pre-processes its input or post-processes json.dumps output: the result no longer decodes to the input", what=what)
     res.floor("C20.R4", "json filter implementations", n_json, 1)
+
+    # ------------------------------------------------------------------ R5 buffers keep characters as written
+    res.rule("C20.R5", "a literal's characters reach the output unchanged: no output buffer is built with a newline mode that rewrites U+000D / CRLF (LimitedStringIO forwards newline='\\n' like StringIO()) (shared with C06.R2)")
+    from checks.shared import check_newline_transparency
+
+    check_newline_transparency(prog, res, "C20.R5")
     del ex
 
 
